@@ -230,12 +230,17 @@ ENGINE = dict(name="Control", path="specs/Control.tla", serves_properties=["C03"
                              "spec from the speed points, speed <= reported limit, target <= limit, limit <= Posted, stop window, no "
                              "panic/timeout/step cap, braking-table safety) + BrakingCurve.tla (Level B integer-kinematics "
                              "transcription of BrakingPoints::recalc, model-checked by TLC over all admitted profiles and replayed on "
-                             "the real recalc); seeded generator of realistic runs driven step by step; TLC trace validation "
+                             "the real recalc) + Controller.tla (Level B transcription of calc_speeds / solve_required_pwr composed "
+                             "with that table: TLC checks NonNeg / Posted / reported limit / target <= limit / stop window / progress "
+                             "for every force choice at every step, liveness under weak fairness; scripted runs replayed step by step on "
+                             "a real SpeedLimitTrainSim at toy scale); seeded generator of realistic runs driven step by step with every "
+                             "reported (limit, target) re-derived from the serialised table; TLC trace validation "
                              "(ControlTrace.tla)")
 _NOTE = ("Trusted: TLC, the serde projection of TrainState / PathTpc / BrakingPoints, the harness' own step loop (walk_internal's "
          "condition + step cap; the library's own walk()/walk_timed_path() is called once that loop has terminated and is judged "
          "by StopWindow on the state it returns). Bounded: random runs at dt = 1 s "
-         "outside the two excluded input classes; BrakingCurve model exhaustive only up to its bounds (<= 5 zones). Known: F-C03-1, "
+         "outside the two excluded input classes; BrakingCurve model exhaustive only up to its bounds (<= 5 zones), Controller model up to <= 4 zones with ample traction "
+         "power (the power-limit branch of solve_required_pwr is not modelled), constant resistance per run. Known: F-C03-1, "
          "F-C03-2 (materialised inputs replayed on every run); F-C03-3 (index underflow of recalc, found by TLC) is repaired.")
 MANIFEST = {
     "C03": dict(engine="Control", design_ref="3 (C03)",
